@@ -4,6 +4,7 @@ CONSTANTS
   CProf <- CProf_thorough
   LoProf <- LoProf_all
   CellReq <- CellReq_all
+  MoveMaxDim = 4
 CHECK_DEADLOCK FALSE
 INVARIANT TypeOK
 INVARIANT C01_Tiling
@@ -15,3 +16,4 @@ INVARIANT C01_DiagContains
 INVARIANT C01_Order
 INVARIANT C01_AxesAgree
 INVARIANT C01_CellRequest
+INVARIANT C01_MovedLattice
